@@ -100,7 +100,7 @@ pub fn inits(tier: Tier) -> Vec<Init> {
         max_nodes: if tier == Tier::Quick { 7 } else { 9 },
         partial: true,
     };
-    let keep = if tier == Tier::Quick { 97 } else { 23 };
+    let keep = if tier == Tier::Quick { 181 } else { 23 };
     for (i, t) in g1.all().into_iter().enumerate() {
         if t.n_nodes() <= 3 || i % keep == 0 {
             v.push(Init::Spec(t));
@@ -114,7 +114,7 @@ pub fn inits(tier: Tier) -> Vec<Init> {
         max_nodes: if tier == Tier::Quick { 7 } else { 9 },
         partial: true,
     };
-    let keep2 = if tier == Tier::Quick { 211 } else { 53 };
+    let keep2 = if tier == Tier::Quick { 389 } else { 53 };
     for (i, t) in g2.all().into_iter().enumerate() {
         if t.n_nodes() <= 3 || i % keep2 == 0 {
             v.push(Init::Spec(t));
